@@ -393,7 +393,7 @@ func (w *Reconciler) syncCreateTasks(
 	// could not be recorded in the status (e.g. the status update failed) still
 	// have to be adopted, otherwise they would never be killed or cleaned up.
 	if !canCreateTask(rj) {
-		return w.syncAdoptTasks(rj, tasks)
+		return w.syncAdoptTasks(ctx, rj, tasks)
 	}
 
 	// Compute task refs first to get true completion status.
@@ -407,7 +407,7 @@ func (w *Reconciler) syncCreateTasks(
 	// created previously but could not be recorded still have to be adopted,
 	// otherwise they would never be killed or cleaned up.
 	if completion.Complete {
-		return w.syncAdoptTasks(rj, tasks)
+		return w.syncAdoptTasks(ctx, rj, tasks)
 	}
 
 	// Compute indexes that need to be created.
@@ -464,9 +464,12 @@ func (w *Reconciler) syncCreateTasks(
 
 // syncAdoptTasks adopts tasks that exist for the indexes that would have to be
 // created next, without creating any new task. Tasks are looked up from the
-// cache only: once a task that is not in the cache yet arrives there, the Job
-// will be synced again.
+// cache. As long as the Job is not finished, a task that is not in the cache is
+// looked up from the apiserver as well: the cache may not have caught up with a
+// task that we created, in which case the Job would be finished while that task
+// is still alive, and become unfinished again once the task shows up.
 func (w *Reconciler) syncAdoptTasks(
+	ctx context.Context,
 	rj *execution.Job,
 	tasks []jobtasks.Task,
 ) (*execution.Job, []jobtasks.Task, error) {
@@ -483,10 +486,17 @@ func (w *Reconciler) syncAdoptTasks(
 
 	var adopted bool
 	for _, request := range indexRequests {
-		task, err := taskMgr.Lister().Index(jobtasks.TaskIndex{
+		index := jobtasks.TaskIndex{
 			Retry:    request.RetryIndex,
 			Parallel: request.ParallelIndex,
-		})
+		}
+		task, err := taskMgr.Lister().Index(index)
+		if kerrors.IsNotFound(err) && rj.Status.Condition.Finished == nil {
+			task, err = taskMgr.Client().Index(ctx, index)
+			if err != nil && !kerrors.IsNotFound(err) {
+				return rj, tasks, errors.Wrapf(err, "cannot look up task")
+			}
+		}
 		if err != nil {
 			continue
 		}
